@@ -34,7 +34,7 @@ impl Prop for C05P {
     }
     fn page_guard(&self, tier: Tier, profile: Profile) -> bool {
         let _ = (tier, profile);
-        profile == Profile::Rel || tier == Tier::Thorough
+        profile == Profile::Rel
     }
     fn rule(&self) -> String {
         "the C01 search repeated over TooDee<Tracked> (elements registered in a drop ledger by unique id, with a canary) and TooDee<TrackedZst> (zero-sized, created/dropped counters); \
